@@ -190,7 +190,7 @@ PROPS = {
         "assumptions": ["macro-graph dimension enumerated (exhaustive up to 3/4 macros)"],
     },
     "C02": {
-        "x": [],
+        "x": ["harness.hC02"],
         "extra": ["harness.pC02.run"],
         "engines": ["engine-t"],
         "engine": "engine-t",
@@ -200,7 +200,9 @@ PROPS = {
                        "equivalence of the SSB machine on x and on compile(decompile(x)) for all outcome sequences "
                        "(Q1) with completeness threshold (Q2); routine tables compared directly. The structuring "
                        "passes run on igraph and are not executed symbolically: the routine-set dimension is "
-                       "enumerated. Inputs in the recorded known-finding classes are reported as KNOWN-FINDING.",
+                       "enumerated. Inputs in the recorded known-finding classes are reported as KNOWN-FINDING. "
+                       "Engine X: the decompiler's condition / switch / case / assignment printers against the reference "
+                       "spelling and reading for symbolic integer parameters, and the label resolver on symbolic offsets.",
         "technique": "z3 BMC trace equivalence between input routines and compile(decompile(input)), per "
                      "enumerated input",
         "level_text": "Per input, equality of behaviour on all paths is solver-decided; the input space is a "
